@@ -400,7 +400,8 @@ def judge(t, ctx, f, u, skip_typeof):
 
 
 def typeof_skipped(t, ctx="plain"):
-    return any(is_widened(l) for l in leaves(t)) and not is_leaf(t)
+    """Trees whose typeof texts are not compared (an avoidance rule).  None at present."""
+    return False
 
 
 def eval_single(t, ctx, strict=False):
@@ -573,25 +574,14 @@ def atoms(with_widened=True):
             out.append(neg(lit(x)))
     for x in LITS["byte"]:
         out.append(lit(x))
-    return [a for a in out if not avoid(a)]          # drops `-0`, `-0x0` (finding: the text "-0")
+    return [a for a in out if not avoid(a)]
 
 
 def avoid(t):
-    """Constructs of the reported findings: pinned in the catalogue, kept out of every other tree."""
-    if t[0] == "neg":
-        m = model(t[1])
-        if m[0] == "ok" and m[1] in ("int", "bigint", "float") and (m[2] < 0 or math.copysign(1.0, m[2]) < 0):
-            return "neg_of_negative_constant"
-        if m[0] == "ok" and m[1] in N.INT_KINDS and m[2] == 0:
-            return "neg_of_integer_zero"
-        if m[0] == "fail" and has_op(t[1], "<<"):
-            return "neg_over_lost_bits_shl"
-    if t[0] == "or" and any(is_widened(l) for l in leaves(t[1])):
-        return "or_over_widened_int_literal"
-    for c in children(t):
-        r = avoid(c)
-        if r:
-            return r
+    """Constructs of unrepaired findings, kept out of every tree outside the catalogue.  None at present: the rules
+    neg_of_negative_constant, neg_of_integer_zero, neg_over_lost_bits_shl, or_over_widened_int_literal (and the
+    typeof rule typeof_skipped_with_widened_int_literal) were removed when /repo repaired the defects
+    (30218e2, 1268d94, cde7bb8); the catalogue still pins every one of them."""
     return None
 
 
@@ -657,7 +647,8 @@ def catalogue():
     cases.append((neg(("bin", "-", lit("0"), lit("5"))), "plain"))
     cases.append((neg(("bin", "-", lit("B0"), lit("B5"))), "plain"))
     cases.append((neg(("bin", "*", lit("0.0"), neg(lit("1.5")))), "plain"))
-    # the text "-0" of a negated integer zero (finding): read as -0.0 by the float folder, refused as a shift amount
+    # the text "-0" of a negated integer zero (repaired finding): was read as -0.0 by the float folder and refused
+    # as a shift amount
     cases.append((("bin", "*", neg(lit("0")), lit("1.5")), "plain"))
     cases.append((("bin", "<<", lit("1"), neg(lit("0"))), "plain"))
     # static operator table for bitwise operators (former C02 finding, repaired) seen through a folded list element
@@ -665,6 +656,7 @@ def catalogue():
     cases.append((("bin", "&", lit("1"), lit("B2")), "list"))
     cases.append((lit("170141183460469231731687303715884105728"), "plain"))       # fits no kind
     cases.append((lit("B170141183460469231731687303715884105728"), "plain"))
+    cases.append((lit("0b100000000"), "plain"))                                  # 9 binary digits: a diagnostic
     for b in ("true", "false"):
         t = ("bool", b)
         cases += [(t, "plain"), (("not", t), "plain"), (("not", ("not", t)), "plain"), (("not", t), "list"),
@@ -841,13 +833,7 @@ def run(ctx):
         "catalogue_cases": len(cat), "one_operator_matrix_cases": len(mat), "depth3_enumerated": n_d3,
         "depth3_sampled": len(smp), "sampler_skipped": skipped,
         "literals_per_kind": {k: len(v) for k, v in LITS.items()},
-        "avoidance_rules": {
-            "neg_of_negative_constant": "no unary minus over a constant negative sub-expression outside the catalogue",
-            "neg_of_integer_zero": "no unary minus over a constant integer zero used as an operand (text `-0`)",
-            "neg_over_lost_bits_shl": "no unary minus over a `<<` that loses bits (C05 finding feeding the negate finding)",
-            "or_over_widened_int_literal": "no `or` whose primary contains a widened integer literal (statically typed int)",
-            "typeof_skipped_with_widened_int_literal": "typeof texts are not compared for trees containing an integer "
-                                                        "literal that is widened to bigint (pinned as a bare literal)"},
+        "avoidance_rules": {},
         "deviation_cases_per_signature": dict(sorted(fam.items())),
     })
     out.exhaustive = (not ctx.quick)
